@@ -82,3 +82,55 @@ Definition get_datapath (iptype : Z) (vlan_strip_vlan trunk : bool) : option Z :
 (* limits: the daemon's, unless the runtime passes a positive rate (bits/s -> bytes/s) *)
 Definition limit (daemon_has_pod : bool) (daemon_val rt_rate : Z) : Z :=
   if 0 <? rt_rate then rt_rate / 8 else if daemon_has_pod then daemon_val else 0.
+
+(* ---- the node-local pool's answer (pkg/eni/local.go LocalIPResource.ToRPC): a copy ------------------ *)
+(* one family of a NetConf as the harness prints it: has address, address, has subnet, subnet base as written,
+   prefix length, has gateway, gateway *)
+Definition conf_fam (has : bool) (ip : N) (hasnet : bool) (base : N) (plen : Z) (hasgw : bool) (gw : N) : list Z :=
+  [if has then 1 else 0; if has then Z.of_N ip else 0;
+   if hasnet then 1 else 0; if hasnet then Z.of_N base else 0; if hasnet then plen else 0;
+   if hasgw then 1 else 0; if hasgw then Z.of_N gw else 0].
+(* s4 / s6: the interface carries a subnet of the family although the pod has no address of it *)
+Definition local_to_rpc (h4 : bool) (i4 n4 : N) (p4 : Z) (g4 : N) (h6 : bool) (i6 n6 : N) (p6 : Z) (g6 : N) (s4 s6 erdma : bool) : list Z :=
+  conf_fam h4 i4 (h4 || s4) n4 p4 (h4 || s4) g4 ++ conf_fam h6 i6 (h6 || s6) n6 p6 (h6 || s6) g6 ++
+  [if h4 || s4 then 1 else 0; if h4 || s4 then Z.of_N g4 else 0; 0; 1; 0; if erdma then 1 else 0].
+
+(* ---- the daemon's side of the cluster IPAM (pkg/eni/crdv2.go multiIP) ------------------------------- *)
+Record cip := { ci_addr : N; ci_valid : bool; ci_pod : bool; ci_uid : Z }.          (* uid: 0 none, 1 the pod's, 2 another *)
+Record cif := { ce_inuse : bool; ce_hp : bool; ce_net4 : N; ce_plen4 : Z; ce_net6 : N; ce_plen6 : Z; ce_v4 : list cip; ce_v6 : list cip }.
+Definition ip_match (i : cip) : bool := ci_valid i && ci_pod i && negb (ci_uid i =? 2).
+Definition last_match (l : list cip) : option N :=
+  match rev (filter ip_match l) with i :: _ => Some (ci_addr i) | [] => None end.
+(* walk over the interfaces (the implementation walks a Go map: the inputs hold at most one matching entry per family,
+   both on one interface, so the order does not matter): the last match of each family, and the interface of the last match *)
+Fixpoint crd_walk (es : list cif) (idx : Z) (acc : option N * option N * option (Z * cif)) : option N * option N * option (Z * cif) :=
+  match es with
+  | [] => acc
+  | e :: r =>
+      let '(a4, a6, ae) := acc in
+      if ce_inuse e then
+        let m4 := last_match (ce_v4 e) in let m6 := last_match (ce_v6 e) in
+        crd_walk r (idx + 1)
+          (match m4 with Some _ => m4 | None => a4 end, match m6 with Some _ => m6 | None => a6 end,
+           match m4, m6 with None, None => ae | _, _ => Some (idx, e) end)
+      else crd_walk r (idx + 1) acc
+  end.
+(* None: the request fails (nothing bound to the pod within the time limit, or an interface without CIDR) *)
+Definition crd_multi_ip (erdma_node : bool) (es : list cif) : option (list Z) :=
+  match crd_walk es 1 (None, None, None) with
+  | (a4, a6, Some (idx, e)) =>
+      let bad4 := match a4 with Some _ => ce_plen4 e <? 0 | None => false end in
+      let bad6 := match a6 with Some _ => ce_plen6 e <? 0 | None => false end in
+      if bad4 || bad6 then None
+      else
+        let g4 := match a4 with Some _ => get_ip_at_neg3 32 (ce_net4 e) (Z.to_N (ce_plen4 e)) | None => None end in
+        let g6 := match a6 with Some _ => get_ip_at_neg3 128 (ce_net6 e) (Z.to_N (ce_plen6 e)) | None => None end in
+        let fam (w : N) (a g : option N) (net : N) (plen : Z) :=
+          conf_fam (match a with Some _ => true | None => false end) (match a with Some x => x | None => 0%N end)
+                   (match a with Some _ => true | None => false end) (net_base w net (Z.to_N plen)) plen
+                   (match g with Some _ => true | None => false end) (match g with Some x => x | None => 0%N end) in
+        Some (idx :: fam 32%N a4 g4 (ce_net4 e) (ce_plen4 e) ++ fam 128%N a6 g6 (ce_net6 e) (ce_plen6 e) ++
+              [match g4 with Some _ => 1 | None => 0 end; match g4 with Some x => Z.of_N x | None => 0 end;
+               0; 1; 0; if erdma_node && ce_hp e then 1 else 0])
+  | _ => None
+  end.
